@@ -33,12 +33,8 @@ ASSUMPTIONS = [
     'on frames every fill works column by column; rows are dropped only when the whole row is NaN',
     'interpolation methods, pad/backfill spellings, date methods and list/dict containers of timeseries are outside the statement and not generated',
     'nona(): value is the default NaN; the edge option (docstring: 1 = cut only the latest all-NaN rows, -1 = only the historic ones) is checked on pandas inputs',
-    'GENUINE DEFECT excluded by construction (K1): on an integer-labelled object (array / RangeIndex) a \'fnna\' step whose first valid row no longer '
-    'sits at position == label (an earlier nona/fnna step dropped rows before it) slices positionally with a label; such cases run on the DatetimeIndex object only',
-    "GENUINE DEFECT excluded by construction (K2): 'nona' applied to a frame that has zero rows returns a frame with zero COLUMNS; the generator replaces that step by 'fnna' "
-    '(the function nona() does the same to a DataFrame without rows: there only the ndarray is run)',
-    "GENUINE DEFECT excluded by construction (K3): on a frame a list [ffill_na|ffill_0, more...] re-applies the whole list to every column and then the rest again; "
-    'tail fills are generated alone on frames and as list heads only on vectors',
+    'formerly excluded, FIXED in /repo and searched again (class labels K1_class / K2_class / K3_class, regression inputs in replays/C12): '
+    "K1 'fnna' after an earlier row drop on an integer-labelled object; K2 'nona' on a frame without rows; K3 a list headed by ffill_na/ffill_0 on a frame",
     'GENUINE DEFECT excluded by construction (K4): nona(ndarray, edge=+-1) ignores edge (drops every all-NaN row); edge is generated for pandas inputs only',
 ]
 
@@ -409,6 +405,12 @@ def run_fillna(spec):
         cls.append('rows_dropped')
     if spec['kinds'] == ['dt']:
         cls.append('dt_only(K1 class)')
+    elif any(isinstance(f, tuple) and f[0] == 'K1' for f in flags):
+        cls.append('K1_class')
+    if dim == 2 and any(isinstance(f, tuple) and f[0] == 'K2' for f in flags):
+        cls.append('K2_class')
+    if dim == 2 and len(methods) > 1 and methods[0] in TAILS:
+        cls.append('K3_class')
     if 'ambiguous' in flags:
         cls.append('ffill_0_allnan_column')
     nt = bool(methods) and (run_gt_limit or tail or (dim == 2 and info['allnan_row']) or 'empty' in pcls or 'all_nan' in pcls)
